@@ -41,6 +41,7 @@ type ClusterOpts struct {
 	PushMs       int                 `json:"push_ms"`       // RoutingTablePushInterval, 0 = default
 	FastGossip   bool                `json:"fast_gossip"`
 	BalancerMs   int                 `json:"balancer_ms"` // TriggerBalancerInterval, 0 = default
+	TableIdleMs  int                 `json:"table_idle_ms"` // maxIdleTableTimeout of the storage engine, 0 = library default (15 min)
 }
 
 type DMapOpts struct {
@@ -96,6 +97,9 @@ func (o *DMapOpts) toConfig(c *ClusterOpts) config.DMap {
 	if ts != 0 {
 		e := config.NewEngine()
 		e.Config = map[string]interface{}{"tableSize": ts}
+		if c.TableIdleMs > 0 {
+			e.Config["maxIdleTableTimeout"] = time.Duration(c.TableIdleMs) * time.Millisecond
+		}
 		d.Engine = e
 	}
 	return d
@@ -146,6 +150,9 @@ func (cl *Cluster) newConfig() *config.Config {
 	if o.TableSize != 0 {
 		e := config.NewEngine()
 		e.Config = map[string]interface{}{"tableSize": o.TableSize}
+		if o.TableIdleMs > 0 {
+			e.Config["maxIdleTableTimeout"] = time.Duration(o.TableIdleMs) * time.Millisecond
+		}
 		dm.Engine = e
 	}
 	if o.Default != nil {
